@@ -79,6 +79,9 @@ def build(rng, i, transport="u"):
         r.te_value = rng.choice(["chunked", "chunked", "Chunked", "CHUNKED"])
     if fr == "chunked" and rng.chance(1, 4):
         r.headers.append(("Content-Length", str(rng.choice([0, 3, size + 5]))))   # TE wins over any Content-Length
+    if rng.chance(1, 12):
+        # the framing headers come after more than a hundred other header fields
+        r.headers = r.headers + [("X-Pad-%d" % k, "v") for k in range(rng.choice([100, 101, 130, 400]))]
     reads = rand_reads(rng, size)
     got, end = expected_read(body, reads)
     if fr == "cl" and size == 0:
